@@ -9,6 +9,7 @@ import (
 	"github.com/ah-naf/borno/environment"
 	"github.com/ah-naf/borno/token"
 	"github.com/ah-naf/borno/utils"
+	"github.com/ah-naf/borno/vhook"
 	"golang.org/x/text/unicode/norm"
 )
 
@@ -91,6 +92,7 @@ func (i *Interpreter) Interpret(statements []ast.Stmt, isRepl bool) []interface{
 }
 
 func (i *Interpreter) eval(expr ast.Expr, env *environment.Environment, isRepl bool) (interface{}, *ControlFlowSignal) {
+	vhook.Step(expr)
 	// fmt.Printf("%T\n", expr)
 	switch e := expr.(type) {
 	case *ast.PropertyAssignment:
@@ -287,6 +289,7 @@ func (i *Interpreter) eval(expr ast.Expr, env *environment.Environment, isRepl b
 		}
 
 		// Step 3: Call the function and return its result
+		vhook.Call(function, len(arguments))
 		result, err := function.Call(i, arguments)
 		if err != nil {
 			utils.RuntimeError(e.Paren, "Function call failed: "+err.Error())
@@ -304,6 +307,7 @@ func (i *Interpreter) eval(expr ast.Expr, env *environment.Environment, isRepl b
 			return nil, &ControlFlowSignal{Type: ControlFlowNone, LineNumber: 0} // Stop execution if a runtime error occurred during evaluation
 		}
 
+		vhook.Stdout("print")
 		if val, ok := value.([]rune); ok {
 			s := string(val)
 			fmt.Println(norm.NFC.String(s))
@@ -320,6 +324,7 @@ func (i *Interpreter) eval(expr ast.Expr, env *environment.Environment, isRepl b
 			return nil, signal
 		}
 		if isRepl && !utils.HadRuntimeError {
+			vhook.Stdout("echo")
 			if val, ok := value.([]rune); ok {
 				fmt.Println(string(val))
 			} else {
@@ -373,6 +378,7 @@ func (i *Interpreter) eval(expr ast.Expr, env *environment.Environment, isRepl b
 			}
 			value = v
 		}
+		vhook.EnvLookup("declare", env, e.Name.Lexeme)
 		_, err := env.GetInCurrentScope(e.Name.Lexeme)
 		if err != nil {
 			env.Define(e.Name.Lexeme, value)
@@ -402,10 +408,12 @@ func (i *Interpreter) eval(expr ast.Expr, env *environment.Environment, isRepl b
 		if utils.HadRuntimeError {
 			return nil, &ControlFlowSignal{Type: ControlFlowNone, LineNumber: 0}
 		}
+		vhook.EnvLookup("assign", env, e.Name.Lexeme)
 		env.Assign(e.Name, val)
 		return val, &ControlFlowSignal{Type: ControlFlowNone, LineNumber: 0}
 
 	case *ast.Identifier:
+		vhook.EnvLookup("get", env, e.Name.Lexeme)
 		val, err := env.Get(e.Name.Lexeme)
 		if err != nil {
 			utils.RuntimeError(token.Token{Line: e.Line}, "Variable "+e.Name.Lexeme+" is not defined.")
